@@ -20,7 +20,7 @@
 From Coq Require Import ZArith QArith List Bool.
 From TI Require Import lib.FArith model.Sizing model.SizingSpec
      proofs.SizingProofs proofs.SizingHistory proofs.SizingTheorems.
-From TI Require gen.Pure proofs.PureTie.
+From TI Require gen.Pure proofs.PureTieSizing.
 Open Scope Z_scope.
 
 (** an automatically computed (or manual) size is a pair of positive integers, for every
@@ -282,7 +282,7 @@ Theorem C04_source_px_of_cols :
                          | Text => TI.gen.Pure.block_pixels_cols_to_px c
                          | Graphics => TI.gen.Pure.graphics_pixels_cols_to_px (fst (cell_or_default e)) c
                          end.
-Proof. exact @TI.proofs.PureTie.px_of_cols_is_source. Qed.
+Proof. exact @TI.proofs.PureTieSizing.px_of_cols_is_source. Qed.
 Print Assumptions C04_source_px_of_cols.
 
 Theorem C04_source_px_of_lines :
@@ -291,7 +291,7 @@ Theorem C04_source_px_of_lines :
                           | Text => TI.gen.Pure.block_pixels_lines_to_px l
                           | Graphics => TI.gen.Pure.graphics_pixels_lines_to_px (snd (cell_or_default e)) l
                           end.
-Proof. exact @TI.proofs.PureTie.px_of_lines_is_source. Qed.
+Proof. exact @TI.proofs.PureTieSizing.px_of_lines_is_source. Qed.
 Print Assumptions C04_source_px_of_lines.
 
 Theorem C04_source_cols_of_px :
@@ -300,7 +300,7 @@ Theorem C04_source_cols_of_px :
                          | Text => TI.gen.Pure.block_pixels_cols_of_px p
                          | Graphics => TI.gen.Pure.graphics_pixels_cols_of_px (fst (cell_or_default e)) p
                          end.
-Proof. exact @TI.proofs.PureTie.cols_of_px_is_source. Qed.
+Proof. exact @TI.proofs.PureTieSizing.cols_of_px_is_source. Qed.
 Print Assumptions C04_source_cols_of_px.
 
 Theorem C04_source_lines_of_px :
@@ -310,5 +310,5 @@ Theorem C04_source_lines_of_px :
                           | Text => TI.gen.Pure.block_pixels_lines_of_px p
                           | Graphics => TI.gen.Pure.graphics_pixels_lines_of_px (snd (cell_or_default e)) p
                           end.
-Proof. exact @TI.proofs.PureTie.lines_of_px_is_source. Qed.
+Proof. exact @TI.proofs.PureTieSizing.lines_of_px_is_source. Qed.
 Print Assumptions C04_source_lines_of_px.
